@@ -15,7 +15,7 @@ RULE = ('operation histories over the public Response API (46 standard headers, 
         'text/html/json/raw payloads, drop_content, every status of the table); non-trivial = at least 3 operations and a '
         'removal or a re-set of a header that was set before, or a body change after a body was set; distinct by canonical JSON')
 ASSUMPTIONS = ['operation alphabet = public API except direct writes to Content-Length / Transfer-Encoding (they belong to the body setters)',
-               'header names and values carry no CR/LF; one history reaches a registered field either through its typed setter or by name through `.x`, not both (the two stores are separate, DESIGN 6.0)',
+               'header names and values carry no CR/LF',
                'Content::Stream (chunked) is covered by C17, WebSocket upgrade is out of scope']
 
 # independent table: the field name each typed setter stands for (RFC 9110 / Fetch / CSP / WebSocket registrations)
@@ -80,12 +80,13 @@ def _cookie(rng):
 def _case(rng):
     ops = []
     pool = rng.sample(USER_STD, rng.choice([1, 2, 3, 6]))      # few names => many re-sets and removals of the same header
-    # a registered field name given to the by-name API `.x(name, ..)`: in a history that does not also reach that field through its typed setter
-    # (the two stores are separate, DESIGN 6.0) it must behave like any other name: set, appended to, removed — by name
+    # names given to the by-name API `.x(name, ..)` in any letter case; among them registered field names, also ones the same history reaches
+    # through their typed setters: one header per field name, whatever the spelling and the way in
     xnames = list(CUSTOM)
-    if rng.random() < 0.25:
-        free = [STD_NAMES[v] for v in USER_STD if v not in pool and v not in ('Date', 'Location')]
-        for n in rng.sample(free, rng.choice([1, 2])):
+    if rng.random() < 0.4: xnames += [rng.choice([n.lower(), n.upper(), n.swapcase()]) for n in rng.sample(CUSTOM, 3)] * 2
+    if rng.random() < 0.3:
+        free = [STD_NAMES[v] for v in USER_STD + ['ContentType']]
+        for n in rng.sample(free, rng.choice([1, 2])) + ([STD_NAMES[rng.choice(pool)]] if rng.random() < 0.6 else []):
             xnames += [rng.choice([n, n.lower(), n.upper()])] * 3
     for _ in range(rng.choice([0, 1, 2, 4, 8, 16, 40])):
         k = rng.random()
@@ -142,6 +143,10 @@ def corpus():
         # a registered field name through the by-name API: set and removed by name
         mk(200, [['xset', hx('Cache-Control'), hx('no-store')], ['xremove', hx('Cache-Control')]]),
         mk(200, [['xset', hx('server'), hx('a')], ['xappend', hx('server'), hx('b')], ['xset', hx('X-A'), '31'], ['xremove', hx('server')], ['xset', hx('VIA'), hx('1.1 p')]]),
+        # one field name, several spellings and both ways in (was: two lines `x-a` / `X-A`; `Server` twice)
+        mk(200, [['xset', hx('x-a'), '31'], ['xset', hx('X-A'), '32'], ['xappend', hx('X-a'), '33'], ['xset', hx('Y'), '34'], ['xremove', hx('y')]]),
+        mk(200, [['set', 'Server', hx('a')], ['xset', hx('server'), hx('b')], ['xappend', hx('SERVER'), hx('c')], ['set', 'Via', hx('1.1 p')], ['xremove', hx('via')], ['xset', hx('date'), hx('never')]]),
+        mk(200, [['text', hx('hi')], ['xset', hx('content-type'), hx('text/x-mine')]]),
         mk(200, [['cookie', hx('id'), hx('4 2'), {'path': hx('/'), 'same_site': 'Strict', 'max_age': 120}], ['cookie', hx('id'), hx('x'), {}]]),
     ] + [mk(st, [['set', h, hx('v')]]) for st, h in zip([200] * len(USER_STD), USER_STD)]
 
@@ -248,11 +253,15 @@ def spec_expect(case):
         elif t == 'append':
             n = STD_NAMES[op[1]]
             std[n] = std[n] + b', ' + unhx(op[2]) if n in std else unhx(op[2])
-        elif t == 'xset': put(custom, unhx(op[1]), unhx(op[2]))
-        elif t == 'xremove': custom.pop(unhx(op[1]), None)
-        elif t == 'xappend':
-            n = unhx(op[1])
-            custom[n] = custom[n] + b', ' + unhx(op[2]) if n in custom else unhx(op[2])
+        elif t in ('xset', 'xremove', 'xappend'):
+            # a field name is one header whatever its letter case and whichever way the API was given it (RFC 9110 5.1): a registered name
+            # reaches the same header as its typed setter, any other name the header of that name in any spelling
+            low = unhx(op[1]).lower()
+            canon = next((c for c in STD_NAMES.values() if c.lower().encode() == low), None)
+            d, n = (std, canon) if canon is not None else (custom, low)
+            if t == 'xset': d[n] = unhx(op[2])
+            elif t == 'xremove': d.pop(n, None)
+            else: d[n] = d[n] + b', ' + unhx(op[2]) if n in d else unhx(op[2])
         elif t == 'cookie': cookies.append((unhx(op[1]), unhx(op[2]), op[3]))
         elif t == 'stream':          # an event stream as content: it announces itself as text/event-stream, uncached, in the chunked coding, with no declared length
             std['Content-Type'] = b'text/event-stream'; std['Cache-Control'] = b'no-cache, must-revalidate'; std['Transfer-Encoding'] = b'chunked'
@@ -311,9 +320,9 @@ def spec_check(case, out):
     rest = [(n, v) for n, v in hs if n != b'Set-Cookie']
     names = [n.lower() for n, _ in rest]
     if len(names) != len(set(names)): return 'a header appears twice: ' + repr(sorted(n for n in set(names) if names.count(n) > 1))
-    want = {k.encode(): v for k, v in std.items()}
+    want = {k.lower().encode(): v for k, v in std.items()}
     want.update(custom)
-    got = dict(rest)
+    got = {n.lower(): v for n, v in rest}
     if got != want:
         diff = {k: (got.get(k), want.get(k)) for k in set(got) | set(want) if got.get(k) != want.get(k)}
         return 'live headers differ from the operation history (got, want): ' + repr(diff)[:300]
@@ -323,11 +332,11 @@ def spec_check(case, out):
         if not line_.startswith(n + b'=' + pct(v)): return f'Set-Cookie line {line_!r} does not start with its cookie pair'
         if b'\r' in line_ or b'\n' in line_: return 'Set-Cookie line break'
     # framing rules of the property, stated on the wire alone
-    cl = got.get(b'Content-Length')
+    cl = got.get(b'content-length')
     if st == 204:
         if cl is not None or body: return '204 with Content-Length or body'
     elif not (100 <= st <= 199 or st == 304):
-        if cl is None and got.get(b'Transfer-Encoding') != b'chunked': return 'no declared length on a response that may carry a body'
+        if cl is None and got.get(b'transfer-encoding') != b'chunked': return 'no declared length on a response that may carry a body'
         if cl is not None and (not cl.isdigit() or int(cl) != len(body)): return f'Content-Length {cl!r} but {len(body)} body bytes'
     else:
         if cl is not None and cl.isdigit() and int(cl) != len(body): return f'Content-Length {cl!r} but {len(body)} body bytes'
